@@ -34,6 +34,8 @@ def run_property(pid, tier="quick", seed=0, root=None, quiet=False, ctx=None):
         mod.check(ctx, R)
         if tier == "thorough" and hasattr(mod, "check_thorough"):
             mod.check_thorough(ctx, R)
+        if R.count_failures and not R.violations():
+            raise AnalysisError(R.count_failures[0][0], R.count_failures[0][1])
     except AnalysisError as e:
         print("ANALYSIS-ERROR property=%s rule=%s reason=%s" % (pid, e.rule, e.reason))
         return 2, R, [], []
